@@ -90,7 +90,7 @@ def parse_charset(s):
 US_OPS = ['add', 'add', 'add', 'discard', 'discard', 'update', 'difference_update', 'ior', 'isub', 'iand', 'ixor',
           'or', 'sub', 'and', 'xor', 'complement', 'copy', 'clear', 'new', 'observe', 'add-invalid', 'shared-copy']
 CC_OPS = ['cc-new', 'cc-add', 'cc-add', 'cc-discard', 'cc-complement', 'cc-isub', 'cc-sub', 'cc-copy', 'cc-clear',
-          'cc-observe']
+          'cc-observe', 'cc-isub-text']
 CC_ESCAPES = ['\\s', '\\S', '\\d', '\\D', '\\w', '\\W', '\\n', '\\t', '\\-', '\\\\', '\\p{Lu}', '\\P{Lu}', '\\p{Nd}',
               '\\P{Zs}', '\\p{IsBasicLatin}', '\\P{IsGreek}', '\\.', '\\^']
 
@@ -140,6 +140,10 @@ def gen_case(rng, tier):
                       'text': cc_charset(rng) if rng.random() < 0.8 else None, 'cp': rng.choice([0x41, 0x20, 0x3b1])}
             elif name in ('cc-isub', 'cc-sub'):
                 op = {'op': name, 'obj': rng.choice(cc_idx), 'other': rng.choice(cc_idx)}
+            elif name == 'cc-isub-text':
+                # subtraction of a new class without negative part (plain characters and ranges)
+                op = {'op': name, 'obj': rng.choice(cc_idx),
+                      'text': rng.choice(['0-9', '3', '0', '5-7', 'A', 'A-F', 'a-z', 'a', 'α-ω', '0-9A-Za-z', 'E', 'e-k'])}
             else:
                 op = {'op': name if name != 'cc-new' else 'cc-observe', 'obj': rng.choice(cc_idx)}
         else:
@@ -325,6 +329,11 @@ def apply_model(op, models):
             setm(op['obj'], B.FULL & ~get(op['obj']))
         elif name == 'cc-isub':
             setm(op['obj'], get(op['obj']) & ~get(op['other']))
+        elif name == 'cc-isub-text':
+            bits = get(op['obj'])
+            for _sign, b in cc_parse(op['text'], BLOCK_BITS):
+                bits &= ~b
+            setm(op['obj'], bits)
         elif name == 'cc-sub':
             models.append(('cc', get(op['obj']) & ~get(op['other'])))
         elif name == 'cc-copy':
@@ -485,7 +494,8 @@ def run_case(case, world):
                 involved.append(objs[op['other'] % len(objs)])
             if any(getattr(x, 'negative', None) for x in involved):
                 feats.append('cc-negative-part-involved')
-            if name in ('cc-isub', 'cc-sub') and len(involved) == 2 and not getattr(involved[1], 'negative', None):
+            if name == 'cc-isub-text' or name in ('cc-isub', 'cc-sub') and len(involved) == 2 \
+                    and not getattr(involved[1], 'negative', None):
                 # the one subtraction the two-part representation gets right: a subtrahend without negative part
                 feats.append('cc-subtrahend-without-negative-part')
         if name.startswith('cc-') and isinstance(op.get('text'), str):
@@ -613,6 +623,8 @@ def run_case(case, world):
                 o.complement()
             elif name == 'cc-isub':
                 o -= objs[op['other'] % len(objs)]
+            elif name == 'cc-isub-text':
+                o -= CharacterClass(op['text'])
             elif name == 'cc-sub':
                 objs.append(o - objs[op['other'] % len(objs)])
                 touched.add(len(objs) - 1)
